@@ -1,5 +1,7 @@
 import Ysshra.Lemmas.Message
 import Ysshra.Lemmas.Text
+import Ysshra.Lemmas.Legacy
+import Ysshra.Spec.C15
 /-
 C15 — client request messages round-trip through both wire formats.
 -/
@@ -106,6 +108,136 @@ theorem c15_total (tok : Option JVal) (raw : Bytes) : unmarshal tok raw ≠ .cra
       unfold unmarshalLegacy; simp only []
       split <;> (try split) <;> simp
     split <;> simp_all
+
+/-- the touchless-sudo value the legacy decoder always fills in -/
+def tsOrZero (t : Option (TSudo Bytes)) : TSudo Bytes := match t with
+  | some t => t
+  | none => ⟨false, [], 0⟩
+
+/-- **Legacy format round trip.**  For every attribute set whose client version, user, host and
+    touchless-sudo hosts hold no space byte and do not end in white space (implied by "free of
+    white space"), whose user and host hold no `@`, and whose touchless-sudo time is a machine
+    integer: decoding what `MarshalLegacy` wrote gives back the client version, user, host,
+    hardware-key, touch-to-SSH and touchless-sudo fields, reports interface version 6, leaves the
+    fields the format does not carry at zero, and mirrors the raw tokens into the extension map. -/
+theorem c15_legacy_roundtrip (a : AttrsB)
+    (hv : NoSp a.SSHClientVersion) (hu : NoSp a.Username) (hh : NoSp a.Hostname)
+    (hua : 0x40 ∉ a.Username) (hha : 0x40 ∉ a.Hostname)
+    (hts : ∀ t, a.TouchlessSudo = some t → NoSp t.Hosts ∧ (-(2 ^ 63 : Int) ≤ t.Time ∧ t.Time < 2 ^ 63)) :
+    unmarshalLegacy (marshalLegacy a) =
+      .ok ⟨6, a.Username, a.Hostname, a.SSHClientVersion, 0, 0, a.HardKey, a.Touch2SSH,
+           some (tsOrZero a.TouchlessSudo), (legacyTokens a).map parseToken⟩ := by
+  have hwf := wf_tokens a hv hu hh (fun t ht => (hts t ht).1)
+  have hne : legacyTokens a ≠ [] := by unfold legacyTokens; simp
+  have hm : parseAttrsLegacy (marshalLegacy a) = legacyPairs a := by
+    unfold marshalLegacy
+    rw [parseAttrsLegacy_join _ hne hwf, foldl_parse_eq _ (by rw [legacyTokens_pairs]; exact legacyPairs_nodup a),
+      legacyTokens_pairs]
+  have hsplit : splitOn 0x40 (a.Username ++ 0x40 :: a.Hostname) = [a.Username, a.Hostname] := by
+    rw [splitOn_field 0x40 _ _ hua, splitOn_single 0x40 _ hha]
+  unfold unmarshalLegacy
+  simp only [hm, legacyTokens_pairs]
+  -- the look-ups, case by case over the optional tokens
+  obtain ⟨ifv, user, host, ver, ca, sa, hk, t2s, ts, exts⟩ := a
+  simp only [] at hsplit hts ⊢
+  have h6 : parseIntLoose b!"6" = 6 := by decide
+  have htrue : parseBoolLoose b!"true" = true := by decide
+  cases hk <;> cases t2s <;> cases ts with
+  | none =>
+    simp [legacyPairs, lookupB, List.find?, hsplit, tsOrZero, h6, htrue,
+      kIFVer, kReq, kHardKey, kTouch2SSH, kIsFirefighter, kHosts, kTime, kVersion]
+  | some t =>
+    obtain ⟨ff, hosts, time⟩ := t
+    have htime := (hts ⟨ff, hosts, time⟩ rfl).2
+    have hrt := parseIntLoose_intDec time htime
+    cases ff <;> by_cases hho : hosts.isEmpty <;> by_cases hti : time = 0 <;>
+      simp [legacyPairs, lookupB, List.find?, hsplit, tsOrZero, h6, htrue,
+        kIFVer, kReq, kHardKey, kTouch2SSH, kIsFirefighter, kHosts, kTime, kVersion, hho, hti, hrt] <;>
+      simp_all
+
+/-! "free of white space and `@`", as the executable statement (`Spec.C15`) spells it, implies the
+hypotheses of `c15_legacy_roundtrip` -/
+
+theorem hasSpace_go_false (n : Nat) (s : Bytes) (h : Spec.C15.hasSpace.go n s = false) (hn : s.length ≤ n) :
+    ∀ t s', s = t ++ s' → s' ≠ [] → stripSpacePrefix s' = none := by
+  induction n generalizing s with
+  | zero =>
+    intro t s' hs hne
+    have : s = [] := List.length_eq_zero_iff.mp (by omega)
+    subst this
+    have := List.append_eq_nil_iff.mp hs.symm
+    exact absurd this.2 hne
+  | succ m ih =>
+    intro t s' hs hne
+    cases s with
+    | nil => have := List.append_eq_nil_iff.mp hs.symm; exact absurd this.2 hne
+    | cons c r =>
+      unfold Spec.C15.hasSpace.go at h
+      simp only [Bool.or_eq_false_iff] at h
+      cases t with
+      | nil =>
+        simp only [List.nil_append] at hs; subst hs
+        cases hp : stripSpacePrefix (c :: r) with
+        | none => rfl
+        | some x => rw [hp] at h; simp at h
+      | cons d t' =>
+        simp only [List.cons_append, List.cons.injEq] at hs
+        exact ih r h.2 (by simp at hn; omega) t' s' hs.2 hne
+
+theorem noSp_of_hasSpace (v : Bytes) (h : Spec.C15.hasSpace v = false) : NoSp v := by
+  have hall := hasSpace_go_false v.length v h (Nat.le_refl _)
+  constructor
+  · intro hm
+    obtain ⟨t, r, hv⟩ := List.append_of_mem hm
+    have := hall t (0x20 :: r) hv (by simp)
+    rw [stripSpacePrefix_none_iff] at this
+    exact this [0x20] (by decide) ⟨r, rfl⟩
+  · intro p hp hsuf
+    obtain ⟨t, ht⟩ := hsuf
+    have := hall t p ht.symm (spaceSeqs_ne_nil p hp)
+    rw [stripSpacePrefix_none_iff] at this
+    exact this p hp (List.prefix_refl p)
+
+theorem hasSpaceOrAt_go_false (n : Nat) (s : Bytes) (h : Spec.C15.hasSpaceOrAt.go n s = false) (hn : s.length ≤ n) :
+    Spec.C15.hasSpace.go n s = false ∧ 0x40 ∉ s := by
+  induction n generalizing s with
+  | zero =>
+    have : s = [] := List.length_eq_zero_iff.mp (by omega)
+    subst this; simp [Spec.C15.hasSpace.go]
+  | succ m ih =>
+    cases s with
+    | nil => simp [Spec.C15.hasSpace.go]
+    | cons c r =>
+      unfold Spec.C15.hasSpaceOrAt.go at h
+      simp only [Bool.or_eq_false_iff, decide_eq_false_iff_not] at h
+      obtain ⟨⟨h1, h2⟩, h3⟩ := h
+      obtain ⟨i1, i2⟩ := ih r h3 (by simp at hn; omega)
+      refine ⟨?_, ?_⟩
+      · unfold Spec.C15.hasSpace.go; simp [h2, i1]
+      · simp only [List.mem_cons, not_or]; exact ⟨fun e => h1 e.symm, i2⟩
+
+/-- The statement's form: for all values free of white space (user and host also free of `@`). -/
+theorem c15_legacy_roundtrip_clean (a : AttrsB)
+    (hv : Spec.C15.hasSpace a.SSHClientVersion = false)
+    (hu : Spec.C15.hasSpaceOrAt a.Username = false) (hh : Spec.C15.hasSpaceOrAt a.Hostname = false)
+    (hts : ∀ t, a.TouchlessSudo = some t →
+      Spec.C15.hasSpace t.Hosts = false ∧ (-(2 ^ 63 : Int) ≤ t.Time ∧ t.Time < 2 ^ 63)) :
+    unmarshalLegacy (marshalLegacy a) =
+      .ok ⟨6, a.Username, a.Hostname, a.SSHClientVersion, 0, 0, a.HardKey, a.Touch2SSH,
+           some (tsOrZero a.TouchlessSudo), (legacyTokens a).map parseToken⟩ := by
+  obtain ⟨u1, u2⟩ := hasSpaceOrAt_go_false _ _ hu (Nat.le_refl _)
+  obtain ⟨h1, h2⟩ := hasSpaceOrAt_go_false _ _ hh (Nat.le_refl _)
+  exact c15_legacy_roundtrip a (noSp_of_hasSpace _ hv) (noSp_of_hasSpace _ u1) (noSp_of_hasSpace _ h1) u2 h2
+    (fun t ht => ⟨noSp_of_hasSpace _ (hts t ht).1, (hts t ht).2⟩)
+
+/-- Non-vacuity: a concrete attribute set meets the hypotheses and round-trips. -/
+example :
+    let a : AttrsB := ⟨3, b!"alice", b!"host-1.example.com", b!"8.1", 0, 0, true, false,
+      some ⟨true, b!"h1,h2", -30⟩, []⟩
+    Spec.C15.hasSpace a.SSHClientVersion = false ∧ Spec.C15.hasSpaceOrAt a.Username = false ∧
+    (unmarshalLegacy (marshalLegacy a)) =
+      .ok ⟨6, b!"alice", b!"host-1.example.com", b!"8.1", 0, 0, true, false, some ⟨true, b!"h1,h2", -30⟩,
+        (legacyTokens a).map parseToken⟩ := by decide
 
 end C15
 end Ysshra
